@@ -9,6 +9,9 @@ package checkpoint
 
 import (
 	"fmt"
+	"io"
+	"net"
+	"sync"
 	"sort"
 	"strconv"
 	"strings"
@@ -352,4 +355,34 @@ func VfNextStart(tg *vfdoubles.Target, local string, ids []string) string {
 		return "none"
 	}
 	return fmt.Sprintf("%d@%d", cpi.Offset, db)
+}
+
+// VfListen puts the target double behind a loopback TCP listener (for code that dials with
+// client.NewRedis instead of taking a connection): every accepted connection is piped to tg.Dial().
+func VfListen(tg *vfdoubles.Target) net.Listener {
+	ln, err := net.Listen("tcp", "127.0.0.1:0")
+	if err != nil {
+		panic(err)
+	}
+	go func() {
+		for {
+			c, err := ln.Accept()
+			if err != nil {
+				return
+			}
+			up := tg.Dial()
+			var once sync.Once
+			cl := func() { once.Do(func() { c.Close(); up.Close() }) }
+			go func() { io.Copy(up, c); cl() }()
+			go func() { io.Copy(c, up); cl() }()
+		}
+	}()
+	return ln
+}
+
+// VfDialCfg is a standalone RedisConfig for an address (VfListen).
+func VfDialCfg(addr string) config.RedisConfig {
+	rc := config.RedisConfig{Addresses: []string{addr}, Type: config.RedisTypeStandalone, Otype: config.RedisTypeStandalone, ClusterOptions: &config.RedisClusterOptions{}}
+	rc.SetClusterShards([]*config.RedisClusterShard{{Master: config.RedisNode{Address: addr}}})
+	return rc
 }
